@@ -57,6 +57,19 @@ fn check_table<E: EndianParse>(t: &SymbolVersionTable<'_, E>, model: &VerModel, 
                         break;
                     }
                 }
+                // the same names through nth() on a fresh iterator (an overridden nth must follow the links as next() does)
+                if !w.names.is_empty() {
+                    for k in [0usize, 1, w.names.len() - 1, w.names.len()] {
+                        if let Ok(Some(d2)) = t.get_definition(i) {
+                            let mut it = d2.names;
+                            let got = it.nth(k).map(|r| r.map(|s| s.to_string()).map_err(|e| err_name(&e)));
+                            let want = w.names.get(k).cloned().map(Ok);
+                            if got != want {
+                                return Err(format!("{}: names.nth({}) = {:?}; the model's names are {:?}", ctx("get_definition"), k, got, w.names));
+                            }
+                        }
+                    }
+                }
                 if d.hash != w.hash || d.flags != w.flags || d.hidden != hidden || names != w.names {
                     return Err(format!("{}: returned hash {:#x} flags {:#x} hidden {} names {:?}; the model says hash {:#x} flags {:#x} hidden {} names {:?}", ctx("get_definition"), d.hash, d.flags, d.hidden, names, w.hash, w.flags, hidden, w.names));
                 }
@@ -84,6 +97,31 @@ fn standalone<E: EndianParse>(e: E, class: Class, s: &VerSections, model: &VerMo
     let needs = if model.needs.is_empty() { None } else { Some((VerNeedIterator::new(e, class, model.needs.len() as u64, lead.0, &vn), StringTable::new(&s.need_strs))) };
     let defs = if model.defs.is_empty() { None } else { Some((VerDefIterator::new(e, class, model.defs.len() as u64, lead.1, &vd), StringTable::new(&s.def_strs))) };
     obs.label_if(lead.0 != 0 || lead.1 != 0, "nonzero_starting_offset");
+    // the record iterators themselves: nth(k) on a fresh auxiliary iterator is the k-th item of repeated next()
+    if !model.needs.is_empty() {
+        let mk = || VerNeedIterator::new(e, class, model.needs.len() as u64, lead.0, &vn);
+        for (j, (_, auxes)) in mk().enumerate().take(40) {
+            let all: Vec<_> = auxes.take(64).collect();
+            for k in [0usize, 1, all.len().saturating_sub(1), all.len()] {
+                let got = mk().nth(j).and_then(|(_, mut a)| a.nth(k));
+                if got.as_ref() != all.get(k) {
+                    return Err(format!("VerNeedAuxIterator of needed file #{}: nth({}) = {:?}; repeated next() gives {:?}", j, k, got, all.get(k)));
+                }
+            }
+        }
+    }
+    if !model.defs.is_empty() {
+        let mk = || VerDefIterator::new(e, class, model.defs.len() as u64, lead.1, &vd);
+        for (j, (_, auxes)) in mk().enumerate().take(40) {
+            let all: Vec<_> = auxes.take(64).collect();
+            for k in [0usize, 1, all.len().saturating_sub(1), all.len()] {
+                let got = mk().nth(j).and_then(|(_, mut a)| a.nth(k));
+                if got.as_ref() != all.get(k) {
+                    return Err(format!("VerDefAuxIterator of definition #{}: nth({}) = {:?}; repeated next() gives {:?}", j, k, got, all.get(k)));
+                }
+            }
+        }
+    }
     let t = SymbolVersionTable::new(ids, needs, defs);
     check_table(&t, model, !model.needs.is_empty(), !model.defs.is_empty(), obs, "SymbolVersionTable::new")
 }
@@ -137,6 +175,18 @@ fn oracle(case: &[u8], obs: &mut Obs) -> Result<(), String> {
                     4 => i_dstr = f.add_sec(b".defstr", m::SHT_STRTAB, s.def_strs.clone()),
                     _ => {}
                 }
+            }
+            // half of the files: a .dynsym with exactly one symbol per versym entry, named by .gnu.version's sh_link as
+            // the tool chains do (class-sized entries: 16 bytes in ELF32, 24 in ELF64)
+            if c.bool() {
+                let n = model.versym.len();
+                let i_sym = f.add_sec(b".dynsym", m::SHT_DYNSYM, vec![0u8; n * m::sym_size(enc)]);
+                f.secs[i_sym].hdr.sh_entsize = m::sym_size(enc) as u64;
+                f.secs[i_sym].hdr.sh_link = i_nstr as u32;
+                if let Some(iv) = f.secs.iter().position(|s| s.hdr.sh_type == m::SHT_GNU_VERSYM) {
+                    f.secs[iv].hdr.sh_link = i_sym as u32;
+                }
+                obs.label("versym_linked_to_a_dynsym");
             }
             if let Some(i) = i_need {
                 f.secs[i].hdr.sh_link = i_nstr as u32;
@@ -222,7 +272,7 @@ pub fn property() -> Property {
     Property {
         id: "C13",
         level: "exploration",
-        rule: "cases are a version model (0..40 needed files x 0..20 auxiliary records with unique indexes>=2, names, hashes, flags; 0..40 definitions with unique indexes>=1 disjoint from the needs and 1..5 names; a versym array mixing 0, 1, defined, needed, unknown indexes, each optionally with bit 15) laid out by an independent builder: records in a random linear extension of the forward partial order (each Verneed/Verdef before its successor and before its own aux chain, aux chains of different parents interleaved, random garbage gaps, first record at section offset 0) or contiguously, next/aux links as increments, shared or separate string tables, class x order x fixed/run-time spec, queried through SymbolVersionTable::new on bare sections (40% with leading bytes and the matching non-zero starting offset), ElfBytes::symbol_version_table and ElfStream::symbol_version_table on a generated file (sh_link/sh_info wiring, shuffled section order; one file in 64 carries an extra section of 1..2 MiB placed anywhere in the layout, one in 128 has about 0xff00 empty sections in front, one in 16 is followed by trailing zero bytes such that the distance from a byte of .gnu.version_r/.gnu.version_d to the end of the file is k*65536*{1,2,8,16,20} plus a few records). Oracle for every symbol index 0..n+2: get_requirement = the model's (file,name,hash,flags,hidden) for index versym[i]&0x7fff or None; get_definition = (hash,flags,hidden,names in order) or None; beyond the table never Some. Non-trivial: (>=2 files with >=2 aux each in non-contiguous layout, or >=2 definitions with >=2 names) and a hidden versym entry; distinct by section-bytes hash.",
+        rule: "cases are a version model (0..40 needed files x 0..20 auxiliary records with unique indexes>=2, names, hashes, flags; 0..40 definitions with unique indexes>=1 disjoint from the needs and 1..5 names; a versym array mixing 0, 1, defined, needed, unknown indexes, each optionally with bit 15) laid out by an independent builder: records in a random linear extension of the forward partial order (each Verneed/Verdef before its successor and before its own aux chain, aux chains of different parents interleaved, random garbage gaps, first record at section offset 0) or contiguously, next/aux links as increments, shared or separate string tables, class x order x fixed/run-time spec, queried through SymbolVersionTable::new on bare sections (40% with leading bytes and the matching non-zero starting offset), ElfBytes::symbol_version_table and ElfStream::symbol_version_table on a generated file (sh_link/sh_info wiring, shuffled section order; half of the files with a .dynsym of one symbol per versym entry named by .gnu.version's sh_link; one file in 64 carries an extra section of 1..2 MiB placed anywhere in the layout, one in 128 has about 0xff00 empty sections in front, one in 16 is followed by trailing zero bytes such that the distance from a byte of .gnu.version_r/.gnu.version_d to the end of the file is k*65536*{1,2,8,16,20} plus a few records). Oracle for every symbol index 0..n+2: get_requirement = the model's (file,name,hash,flags,hidden) for index versym[i]&0x7fff or None; get_definition = (hash,flags,hidden,names in order) or None; beyond the table never Some; nth(k) on fresh name / auxiliary iterators equals the k-th item of repeated next(). Non-trivial: (>=2 files with >=2 aux each in non-contiguous layout, or >=2 definitions with >=2 names) and a hidden versym entry; distinct by section-bytes hash.",
         assumptions: &["well-formedness as the statement scopes it: unique version indexes, vna_other without bit 15, forward links only, UTF-8 names, version 1 records"],
         subs: vec![Sub::new("versions", oracle, 6000, 600_000, 20_000_000)],
         extras: vec![crate::fuzz::c13_choice],
